@@ -9,7 +9,7 @@ from props.streams_cat import BY_ID, QUICK, STREAMS
 from vfw import streams as vs
 from vfw.schema import absval as _absval
 
-BOUNDS = ("sched_cat: catalogue entries with symbolic value slots (narrowed to two size classes) encoded by BER (definite/indefinite), CER, DER, once or twice back to back, one symbolic cut (two in the thorough tier), two stream kinds; "
+BOUNDS = ("sched_cat: catalogue entries with symbolic value slots (narrowed to two size classes) encoded by BER (definite/indefinite), CER, DER, once or twice back to back, one symbolic cut (two in the thorough tier), on the seekable non-blocking double (behind the caching wrapper the cache is a real io.BytesIO, which would enumerate the symbolic contents: that kind is covered by the concrete streams); "
           "streams: props/streams_cat.py (8 quick / 10 thorough concrete concatenations, BER definite/indefinite/chunked, CER, DER, guided and "
           "schemaless); arrival schedule: k symbolic non-decreasing cut points in [0, |s|] (k = 1 quick: every 2-chunk partition and every empty "
           "poll; k = 2 thorough, k = 3 for streams <= 20 octets), end-of-stream signalled with or after the last octet (symbolic); three stream "
@@ -116,9 +116,9 @@ def _der(o):
     return der_encoder.encode(o)
 
 
-def sched_cat(sid, codec, defMode, twice, kind, eof_with_last, c1, c2, **slots):
+def sched_cat(sid, codec, defMode, twice, kind, eof_with_last, cut1, cut2, **slots):
     """Catalogue value with symbolic slots, encoded by the real encoder (codec/mode symbolic), once or twice back to back, arriving in up to three
-    chunks on a seekable (kind 1) or non-seekable (kind 2) non-blocking double: same objects as the complete bytes give, then stop."""
+    chunks on a seekable non-blocking double: same objects as the complete bytes give, then stop."""
     from props.C07 import _decoder, _encode
 
     e = by_id(sid)
@@ -126,9 +126,9 @@ def sched_cat(sid, codec, defMode, twice, kind, eof_with_last, c1, c2, **slots):
     enc1 = _encode(codec, build(e.t, av), defMode, 0)
     data = enc1 + enc1 if twice else enc1
     total = len(data)
-    if c1 > total or c2 > total or (c2 >= 0 and c2 < c1):
+    if cut1 > total or cut2 > total or (cut2 >= 0 and cut2 < cut1):
         raise Skip()
-    stream = vs.ArrivalStream(data, [c1] if c2 < 0 else [c1, c2], eof_with_last, seekable=(kind == 1))
+    stream = vs.ArrivalStream(data, [cut1] if cut2 < 0 else [cut1, cut2], eof_with_last, seekable=(kind == 1))
     it = iter(_decoder(codec).StreamingDecoder(stream, asn1Spec=mk_type(e.t)))
     want = 2 if twice else 1
     objs = []
@@ -183,9 +183,9 @@ OBLIGATIONS = []
 for e in all_entries():
     if e.has("real") or e.has("corpus"):
         continue
-    OBLIGATIONS.append(entry_obl("sched_cat", sched_cat, e, narrow=True, budget=150, thorough_budget=400,
-                                 extra={"codec": I(0, 2), "defMode": B, "twice": B, "kind": I(1, 2), "eof_with_last": B, "c1": I(0, 40), "c2": C(-1)},
-                                 extra_thorough={"c2": I(-1, 40)},
+    OBLIGATIONS.append(entry_obl("sched_cat", sched_cat, e, narrow=True, budget=300, thorough_budget=600,
+                                 extra={"codec": I(0, 2), "defMode": B, "twice": B, "kind": C(1), "eof_with_last": B, "cut1": I(0, 40), "cut2": C(-1)},
+                                 extra_thorough={"cut2": I(-1, 40)},
                                  extra_shards=[{"codec": C(c_), "twice": C(t_)} for c_ in range(3) for t_ in (False, True)],
                                  tiers=("quick", "thorough") if e.id in CAT_QUICK else ("thorough",),
                                  doc="catalogue value (symbolic slots) x codec x mode, once/twice, arriving in two chunks (cut symbolic), seekable and non-seekable double"))
